@@ -193,10 +193,14 @@ def callerGo (v : Variant) (beh : Beh) : List Nat → St → St
 
 def callerCall (v : Variant) (beh : Beh) (st : St) : St := callerGo v beh st.all st
 
+/-- the state in which the port dispatch of a packet starts: the packet was taken from the link and the
+all-packet callbacks have run -/
+def afterAll (v : Variant) (beh : Beh) (st : St) (hdr : Nat) : St := callerCall v beh (st.push (.pkt hdr))
+
 /-- one iteration of the `while True` loop of `run` for a packet with header `hdr` -/
 def handlePacket (v : Variant) (beh : Beh) (st : St) (hdr : Nat) : St :=
   if st.dead then st else
-  let st1 := callerCall v beh (st.push (.pkt hdr))
+  let st1 := afterAll v beh st hdr
   if st1.dead then st1 else dispatch v beh hdr st1
 
 /-- the dispatcher thread fed with a sequence of packets -/
@@ -204,10 +208,27 @@ def run (v : Variant) (beh : Beh) (st : St) (hdrs : List Nat) : St := hdrs.foldl
 
 /-! ### projections of the trace -/
 
-def callsOf (tr : List Ev) : List Reg := tr.filterMap fun | .call r => some r | _ => none
-def allCallsOf (tr : List Ev) : List Nat := tr.filterMap fun | .callAll c => some c | _ => none
-def pktsOf (tr : List Ev) : List Nat := tr.filterMap fun | .pkt h => some h | _ => none
+def Ev.asCall : Ev → Option Reg
+  | .call r => some r
+  | _ => none
+def Ev.asAllCall : Ev → Option Nat
+  | .callAll c => some c
+  | _ => none
+def Ev.asPkt : Ev → Option Nat
+  | .pkt h => some h
+  | _ => none
+def Ev.asDelivery : Ev → Option Ev
+  | .pkt h => some (.pkt h)
+  | .call r => some (.call r)
+  | _ => none
+
+/-- the registrations whose callback was invoked, in order -/
+def callsOf (tr : List Ev) : List Reg := tr.filterMap Ev.asCall
+/-- the all-packet callbacks invoked, in order -/
+def allCallsOf (tr : List Ev) : List Nat := tr.filterMap Ev.asAllCall
+/-- the packets taken from the link, in order -/
+def pktsOf (tr : List Ev) : List Nat := tr.filterMap Ev.asPkt
 /-- deliveries: packets taken and port callbacks invoked, in order -/
-def deliveries (tr : List Ev) : List Ev := tr.filter fun | .pkt _ => true | .call _ => true | _ => false
+def deliveries (tr : List Ev) : List Ev := tr.filterMap Ev.asDelivery
 
 end CfVerif.C07
